@@ -376,11 +376,31 @@ BuildJobs ==
         \/ /\ j \in MxJobs /\ m.k = "lit" /\ m.rows # <<>> /\ m.exc = "none"
            /\ \E x \in ExcKinds : sh' = [sh EXCEPT !.jobs[j].mx.exc = x]
 
+(* Spelling of a vector.  Names of steps, jobs, outputs, matrix keys, inputs and secrets are case-insensitive and
+   `x.name` and `x['name']` are the same access: Defined(...) is a function of the names alone, so the verdict of a
+   vector holds for EVERY spelling below.  Each vector is given one of them (spread over the universe by a fixed
+   arithmetic function of the vector) next to the plain one: syn = access syntax of the entity segments of the
+   reference, ref / decl = "U" when the reference / the declarations are written with upper-case letters. *)
+Spellings == << [syn |-> "dot", ref |-> "l", decl |-> "l"], [syn |-> "idx", ref |-> "l", decl |-> "l"],
+                [syn |-> "dot", ref |-> "U", decl |-> "l"], [syn |-> "idx", ref |-> "U", decl |-> "l"],
+                [syn |-> "dot", ref |-> "l", decl |-> "U"], [syn |-> "idx", ref |-> "l", decl |-> "U"],
+                [syn |-> "dot", ref |-> "U", decl |-> "U"], [syn |-> "idx", ref |-> "U", decl |-> "U"] >>
+KindOrd == <<"run", "with", "stepenv", "outputs", "stepname", "steptimeout", "stepif", "envurl", "jobenv", "jobname",
+             "environment", "runson", "container", "service", "concurrency", "timeout", "conterr", "callwith",
+             "callsecret", "mxrow", "mxinc", "mxexc", "jobif", "wfenv", "runname", "callout">>
+AllNames == <<"a", "b", "c", "z", "j0", "j1", "j2", "j3", "s", "github_token", "actions_runner_debug">>
+IdxIn(seq, x) == IF \E i \in DOMAIN seq : seq[i] = x THEN CHOOSE i \in DOMAIN seq : seq[i] = x ELSE 0
+SpellingOf(s, site, r) ==
+  LET h == IdxIn(KindOrd, site.k) + 3 * site.j + 5 * site.s + 7 * Len(r.p) + IdxIn(AllNames, r.p[1])
+           + Len(s.jobs) + Len(s.jobs[1].steps) + Len(s.jobs[1].needs) + Len(s.jobs[1].mx.rows) + Len(s.jobs[1].mx.inc.cs)
+           + Len(s.call.ins) + Len(s.disp.ins) + Len(s.call.sec.ns)
+  IN Spellings[(h % 8) + 1]
+
 VecSites(s) == {x \in AllSites(s) : x.k \in Sites}
 Pick ==
   /\ sh.jobs # <<>>
   /\ \E site \in VecSites(sh) : \E r \in {q \in RefsAt(site.k) : q.ctx \in Ctxs /\ (site.k \in ShortSites => Len(q.p) = 1)} :
-       tc' = ToJson([sh |-> sh, site |-> site, ref |-> r, def |-> Defined(sh, site, r)])
+       tc' = ToJson([sh |-> sh, site |-> site, ref |-> r, def |-> Defined(sh, site, r), sp |-> SpellingOf(sh, site, r)])
   /\ phase' = "vec"
   /\ UNCHANGED <<sh, visited, cur, k, rs, obs, seen>>
 
